@@ -522,6 +522,52 @@ def run_known(ctx):
             ctx.known(e["id"], e.get("what", ""))
 
 
+GLOBAL_LETS = [
+    # (annotated type, constant initializer of type any, use in main, expected output or None when the value does not conform)
+    ("int", '"8080"', "println(G + 1);", None),
+    ("int", "8081", "println(G + 1);", "8082\n"),
+    ("?str", '"srv"', "println(G, G.is_some());", "Some(srv) true\n"),
+    ("[?int]", "[1, 2]", "println(G, G[0].unwrap() + 1);", "[Some(1), Some(2)] 2\n"),
+    ("{ ? }", "new { a: 1 }", "println(G.keys(), G.get_type(\"a\"));", "[a] int\n"),
+    ("[int]", '["x"]', "println(G.len());", None),
+    ("{ a: int, b: ?bool }", "new { a: 1, b: true }", "println(G.a + 1, G.b.unwrap());", "2 true\n"),
+    ("{ a: int, b: ?bool }", "new { a: 1 }", "println(G.a);", None),
+    ("?[str]", '["a"]', "println(G, G.unwrap().len());", "Some([a]) 1\n"),
+    ("str", "5", "println(G.len());", None),
+]
+
+
+def run_global_lets(ctx):
+    """An annotated GLOBAL `let` whose initializer has type any (an object literal indexed by a computed key is a constant
+    expression) is a dynamic-to-static crossing like a local one: conforming values are admitted (a T into ?T wrapped),
+    non-conforming ones end the program before `main` runs — on both backends."""
+    progs = []
+    for ts, lit, use, want in GLOBAL_LETS:
+        progs.append(f'let G: {ts} = new {{ k: {lit} }}["k" + ""];\nfn main() {{ println("main runs"); {use} }}\n')
+    go = core.go_lines("run", [f"(run (main {G.hexs(src)}))" for src in progs], timeout=300)
+    for (ts, lit, use, want), src, g in zip(GLOBAL_LETS, progs, go):
+        rep = {"kind": "program", "source": src}
+        ctx.count(case_key=src, nontrivial=True)
+        if g.startswith(("CRASH", "HANG")):
+            ctx.violation(dict(rep, go=g[:300]), f"global let: the program crashed the harness: {g[:120]}")
+            continue
+        parts = dict(p.split("=", 1) for p in g.split(" | "))
+        if not parts.get("A", "").startswith("ACCEPT"):
+            ctx.broken.append(f"correspondence:global-let-rejected: {src[:120]} :: {parts.get('A', '')[:80]}")
+            continue
+        for be in ("VM", "TREE"):
+            kind, out, kv = outcome(parts[be])
+            what = None
+            if kind in ("PANIC", "CRASH"):
+                what = f"{be}: global let `G: {ts} = {lit}`: the host panicked: {parts[be][:160]}"
+            elif want is not None and (kind != "OK" or out != "main runs\n" + want):
+                what = f"{be}: global let `G: {ts} = {lit}`: a conforming value is not admitted as a value of its type: {kind} out={out[:120]!r}, expected {('main runs' + chr(10) + want)!r}"
+            elif want is None and (kind == "OK" or "main runs" in out):
+                what = f"{be}: global let `G: {ts} = {lit}`: a non-conforming value was let through: {kind} out={out[:120]!r}"
+            if what:
+                ctx.violation(dict(rep, backend=be, go=parts[be][:400]), what)
+
+
 def run(ctx):
     st = core.prepare(ctx, MODULES)
     # field names of object types and values also come from the names of the builtin object members: a declared field
@@ -547,6 +593,7 @@ def run(ctx):
     ctx.coverage["direct_cast_cases_by_verdict"] = kinds
     check_isolation(ctx)
     pstats = check_programs(ctx, gen_programs(ctx, 1200 if quick else 20000))
+    run_global_lets(ctx)
     ctx.coverage["program_cases"] = pstats
     hstats = check_host(ctx, gen_host(ctx, 500 if quick else 8000))
     ctx.coverage["host_cases"] = hstats
